@@ -119,7 +119,7 @@ var benignPrefixes = []string{
 	"(*zap.SugaredLogger).", "(*zap.Logger).", "zap.",
 	"(statsd.ClientInterface).", "(*statsd.Client).", "(*statsd.NoOpClient).",
 	"fmt.Sprintf", "fmt.Sprint", "fmt.Println", "fmt.Printf", "fmt.Sprintln",
-	"time.Now", "time.Since", "(time.Time).", "(time.Duration).", "time.Duration",
+	"time.Now", "time.Since", "time.ParseDuration", "time.Sleep", "time.Unix", "(time.Time).", "(time.Duration).", "time.Duration",
 	"strings.", "strconv.", "(*strings.Builder).", "errors.", "(*errors.",
 	"math.", "bytes.Equal", "bytes.Compare", "bytes.HasPrefix",
 	"(error).Error", "(*echo.HTTPError).", "(*sync.WaitGroup).", "(*sync.Once).",
